@@ -47,4 +47,13 @@ def main():
 
 
 if __name__ == '__main__':
-    sys.exit(main())
+    try:
+        code = main()
+    except SystemExit:
+        raise
+    except BaseException as e:      # a crash of the harness is inconclusive, never a verdict
+        import traceback
+        traceback.print_exc()
+        print(f'INCONCLUSIVE harness error: {type(e).__name__}: {e}')
+        code = 3
+    sys.exit(code)
